@@ -117,8 +117,9 @@ def run_case(case):
     cls = set()
     eps = {}
     last = {}
+    pos = None
     if driver == 'position':
-        pos = None
+        pass
     elif driver == 'handler':
         ph = q.PositionHandler()
     else:
@@ -128,7 +129,8 @@ def run_case(case):
         a = names[ai if driver != 'position' else 0]
         t = T0 + pd.Timedelta(minutes=i)
         oid = ('o%d' % (i // 3)) if case.get('repeat_order_ids') else 'o%d' % i      # partial fills share an order id
-        txn = q.Transaction(a, qty, t, price, oid, commission=comm)
+        # (the commission is the documented sixth argument: passed by keyword or by position)
+        txn = q.Transaction(a, qty, t, price, oid, commission=comm) if i % 3 else q.Transaction(a, qty, t, price, oid, comm)
         ep = eps.setdefault(a, Episode())
         if qty == 0:
             # an order sized down to zero shares: nothing is booked, an open position stays as it is
@@ -187,14 +189,19 @@ def run_case(case):
                 cls.add('net_exactly_1')
             if price <= 1.0:
                 cls.add('price_le_1')
-        if case.get('refused_fills') and driver == 'position' and pos is not None and i % 3 == 1 and ep.net != 0:
+        if driver == 'handler':
+            pos = ph.positions.get(a)       # a refused fill arrives through the position handler
+        if case.get('refused_fills') and driver in ('position', 'handler') and pos is not None and i % 3 == 1 and ep.net != 0:
             # a fill stamped before the position's own time is refused with ValueError.  Whether the refused fill counts
             # as one of "its fills" is not stated - but the position must reconcile to one of the two ledgers: all the
             # fills so far with, or without, the refused one (never to a mixture)
             bad_q = float(case['refused_fills']) * (1 if i % 2 else -1)
             bad = q.Transaction(a, bad_q, t - pd.Timedelta(days=3), price * 1.5 + 0.01, 'refused%d' % i, commission=7.25)
             try:
-                pos.transact(bad)
+                if driver == 'handler':
+                    ph.transact_position(bad)
+                else:
+                    pos.transact(bad)
             except ValueError:
                 with_ = Episode()
                 with_.fills = list(ep.fills)
@@ -330,6 +337,8 @@ def ladders(draw):
     net = [0] * na
     fills, marks = [], []
     subunit_open = False
+    # (a refused fill may be booked all the same, after which the planned net below is not the position's any more)
+    refused = draw(st.sampled_from([0, 0, 3, 50])) if driver in ('position', 'handler') else 0
     frac = draw(st.sampled_from([False, False, False, True]))      # non-integer quantities of at least one unit
     big = (not frac) and draw(st.sampled_from([False, False, False, True]))     # six-figure quantities
     comm = st.one_of(st.just(0.0), st.floats(0, 50).map(lambda x: round(x, 4)), st.sampled_from([0.01, 1.0]))
@@ -355,7 +364,7 @@ def ladders(draw):
             qty = mag if draw(st.booleans()) else -mag
         if abs(qty) < 1:          # sub-unit fills are outside the domain (documented as "no quantity" by the code)
             qty = (1.5 if frac else 1) * (1 if qty >= 0 else -1)
-        if frac and net[a] == 0 and (driver != 'position' or not fills) and draw(st.sampled_from([False, False, True])):
+        if frac and net[a] == 0 and ((driver != 'position' and not refused) or not fills) and draw(st.sampled_from([False, False, True])):
             # ... except for the fill that opens a position, which is booked whatever its size
             qty = draw(st.sampled_from([0.5, 0.25, -0.5, 0.75]))
             subunit_open = True
@@ -368,7 +377,7 @@ def ladders(draw):
         if draw(st.sampled_from([True, False, False])):
             marks.append([i, draw(st.integers(0, na - 1)), draw(gen.prices)])
     return {'subunit_open': subunit_open, 'driver': driver, 'fills': fills, 'marks': marks, 'fractional': frac,
-            'refused_fills': draw(st.sampled_from([0, 0, 3, 50])) if driver == 'position' else 0,
+            'refused_fills': refused,
             'repeat_order_ids': draw(st.sampled_from([False, False, True])), 'bad_marks': draw(st.booleans()),
             'marks_without_dt': driver != 'portfolio' and draw(st.booleans())}
 
